@@ -36,6 +36,7 @@ fn main() {
     }
     match args[1].as_str() {
         "macro-child" => std::process::exit(verif_core::macros_child::child_main()),
+        "race-child" => std::process::exit(verif_core::macros_child::race_child_main()),
         "run" => {
             let id = pos.first().and_then(|s| props::static_id(s)).unwrap_or_else(|| usage());
             std::process::exit(run(id, tier, seed));
